@@ -811,7 +811,13 @@ func c07Check(c *kit.Case, where string, n *c07Node, pods []*c07Pod, pre, post *
 // c07Eligible counts, independently of the allocator, the devices of one type that could serve one
 // per-device request in the given state: reported healthy by the last inventory and with at least
 // the requested amount of every requested resource free (total - sum of live allocations).
-func c07Eligible(n *c07Node, t schedulingv1alpha1.DeviceType, per corev1.ResourceList, used map[c07Key]int64, required sets.Int) (int, map[int]bool) {
+//
+// bothUnits (used for the "refused only if no set exists" direction): GPU memory is one physical
+// resource booked in two units (bytes and ratio of the device's memory). A request names one of
+// them; with bothUnits a device counts only if the amount is also free in the other unit, converted
+// upwards. So a refusal is never blamed on a device whose memory is exhausted in the unit the
+// request did not name, whatever rounding the implementation uses for the conversion.
+func c07Eligible(n *c07Node, t schedulingv1alpha1.DeviceType, per corev1.ResourceList, used map[c07Key]int64, required sets.Int, bothUnits bool) (int, map[int]bool) {
 	inv, healthy := n.inventory()
 	cnt := 0
 	ok := map[int]bool{}
@@ -823,16 +829,32 @@ func c07Eligible(n *c07Node, t schedulingv1alpha1.DeviceType, per corev1.Resourc
 		if required.Len() > 0 && !required.Has(m) {
 			continue
 		}
+		free := func(name corev1.ResourceName) int64 {
+			k := c07Key{t, m, name}
+			f := inv[k] - used[k]
+			if f < 0 {
+				f = 0
+			}
+			return f
+		}
 		fits := true
 		for name, q := range per {
-			k := c07Key{t, m, name}
-			free := inv[k] - used[k]
-			if free < 0 {
-				free = 0
-			}
-			if free < q.MilliValue() {
+			if free(name) < q.MilliValue() {
 				fits = false
 				break
+			}
+		}
+		if fits && bothUnits && t == c07GPU {
+			memTotal := inv[c07Key{t, m, apiext.ResourceGPUMemory}] / 1000
+			bq, hasBytes := per[apiext.ResourceGPUMemory]
+			rq, hasRatio := per[apiext.ResourceGPUMemoryRatio]
+			switch {
+			case hasBytes && !hasRatio && memTotal > 0:
+				ratio := (bq.Value()*100 + memTotal - 1) / memTotal
+				fits = free(apiext.ResourceGPUMemoryRatio) >= ratio*1000
+			case hasRatio && !hasBytes:
+				bytes := (rq.Value()*memTotal + 99) / 100
+				fits = free(apiext.ResourceGPUMemory) >= bytes*1000
 			}
 		}
 		if fits {
@@ -1044,13 +1066,17 @@ func TestVerifC07Ledger(t *testing.T) {
 					}
 				}
 				eligOK := map[schedulingv1alpha1.DeviceType]map[int]bool{}
+				allFitBothUnits := true
 				for _, t := range typesSorted {
 					w := sh.want[t]
 					var rs sets.Int
 					if required != nil {
 						rs = required[t]
 					}
-					e, okm := c07Eligible(n, t, w.per, usedBefore, rs)
+					e, okm := c07Eligible(n, t, w.per, usedBefore, rs, false)
+					if e2, _ := c07Eligible(n, t, w.per, usedBefore, rs, true); e2 < w.count {
+						allFitBothUnits = false
+					}
 					eligOK[t] = okm
 					switch {
 					case e < w.count:
@@ -1075,7 +1101,10 @@ func TestVerifC07Ledger(t *testing.T) {
 					c.Count("allocate_refused", 1)
 					if sh.plain {
 						c.Count("refusals_checked_against_eligible_count", 1)
-						if allFit {
+						if allFit && !allFitBothUnits {
+							c.Count("converse_misses_refused_gpu_memory_short_in_the_other_unit", 1)
+						}
+						if allFitBothUnits {
 							c.Fail("C07/allocate/refused-although-devices-fit", "node %s: request %s %s refused (%s) although for every requested type enough healthy devices have the per-device request free (%s); inventory %s", n.name, sh.class, c07RL(sh.requests), reason, eligClass, n.describe())
 						}
 						if strings.Contains(eligClass, "short-by-1") {
